@@ -224,7 +224,8 @@ class MafSorterCodec(SorterCodec):
     def encode(self, record: MafRecord) -> bytearray:
         """Encodes a MafRecord"""
         if not self._column_names:
-            self._column_names = record.keys()  # type: ignore
+            # a copy: the record may be changed (or re-keyed) by its owner later
+            self._column_names = list(record.keys())
         return bytearray(source=str(record), encoding='utf-8')  # type: ignore
 
     def decode(self, data: bytes, start: int, length: int) -> MafRecord:
